@@ -66,6 +66,7 @@ type Spec struct {
 	Assumptions []string          `json:"assumptions"`
 	Outside     []string          `json:"outside_claim"`
 	MapOrder    bool              `json:"map_order_forks"`
+	NoCRCLemmas bool              `json:"no_crc_lemmas"` // CRC stays an uninterpreted function but its injectivity lemmas are not instantiated (kernels that never corrupt data)
 	PoolReuse   bool              `json:"pool_reuse"` // sync.Pool.Get may return an object handed to Put earlier (both outcomes explored)
 	Opaque      map[string]bool   `json:"opaque"`
 	Havoc       []string          `json:"havoc"` // functions replaced by "returns arbitrary results, no side effects"
@@ -309,6 +310,7 @@ func runEntry(prog *ssa.Program, s *Spec, es EntrySpec, tier string) *EntryResul
 	e := NewEngine(prog, cfg)
 	e.mapOrderForks = s.MapOrder
 	e.poolReuse = s.PoolReuse
+	e.noCRCLemmas = s.NoCRCLemmas
 	if tier == "thorough" {
 		e.tier = 1
 	}
